@@ -64,7 +64,29 @@ def check(ctx):
         witness.run(ctx, "C13")
 
 
+VIEW_TWINS = [("<raw_vector::RawVector as raw_vector::AccessRaw>::%s" % meth, "<raw_vector::RawVectorMapper<'a> as raw_vector::AccessRaw>::%s" % meth)
+              for meth in ("bit", "int", "word", "word_unchecked")] + \
+             [("<int_vector::IntVector as ops::Access<'a>>::get", "<int_vector::IntVectorMapper<'a> as ops::Access<'a>>::get")]
+VIEW_SUBST = [("IntVectorMapper<'a>", "IntVector"), ("RawVectorMapper<'a>", "RawVector"), ("serialize::MappedSlice<'_, u64>", "std::vec::Vec<u64>"), ("MappedSlice", "Vec")]
+
+
+def check_view_accessors(ctx, F, tag):
+    """"A mapped view exposes exactly the content that loading would give": the read accessors of the mapped vectors are the read
+    accessors of the owned vectors with the storage type exchanged (both end in bits::read_int / the same word index).  Sibling
+    agreement by effect-level isomorphism (A8); a pair that is structured differently (one side gained a fast path) is undecided."""
+    import twins
+    for a, b_ in VIEW_TWINS:
+        if not (F.has_body(a) and F.has_body(b_)):
+            raise Undecided("anchor lost: %s / %s" % (a, b_))
+        ok, info = twins.compare(F.body(a), F.body(b_), VIEW_SUBST, types=False)
+        ctx.ob("C13.R5.view-accessor-agrees-with-owned", "%s ~ %s%s" % (a.split("::")[-1], b_.split(" as ")[0].strip("<").split("::")[-1] + "::" + b_.split("::")[-1], tag),
+               loc(F.body(b_).raw["span"]), ok, "mir-isomorphism",
+               ("the mapped accessor is the owned accessor with the storage type exchanged (%s steps compared)" % info) if ok else "the accessors diverge: %s" % str(info)[:200],
+               positive=ok is False)
+
+
 def check_config(ctx, F, tag):
+    check_view_accessors(ctx, F, tag)
     if not getattr(ctx, "_map", None):
         import c14
         from core import Relabel
